@@ -101,6 +101,7 @@ class World:
         self.trace = []          # git-level operations of the current job
         self.ops = []            # remote-mutating operations of the current job (for fault injection)
         self.fault = None
+        self._cur_push_all = None
         self.jobs_run = 0
         self._init_repo()
         self.berte = self._new_berte()
@@ -495,8 +496,12 @@ class Recorder:
             if f and f.get('at') == idx and f.get('mode') == 'crash_before':
                 f['crashed'] = True
                 raise InjectedCrash()
-            if f and f.get('at') == idx and f.get('mode') == 'third_party':
-                f['action'](w)
+            if f and f.get('mode') == 'third_party' and kind in ('push', 'push_all', 'rawpush'):
+                f['pushes_seen'] = f.get('pushes_seen', 0) + 1
+                if f['pushes_seen'] - 1 == f.get('push_index') and not f.get('fired'):
+                    f['fired'] = True
+                    op['third_party'] = f['kind']
+                    f['result'] = f['action'](w)
             if kind in ('push', 'push_all', 'rawpush'):
                 op['remote_before'] = w.refs()
             try:
@@ -571,13 +576,25 @@ class Recorder:
                         return orig(self_, prune=prune)
                     # atomic push: one refused ref refuses everything
                     raise lg.PushFailedException('atomic push failed: ' + str(reject))
-                w.trace.append({'op': 'push_all', 'prune': prune, 'local': rec.local_refs(self_), 'opi': len(w.ops)})
-                return remote_op('push_all', {'prune': prune}, run)
+                entry = {'op': 'push_all', 'prune': prune, 'local': rec.local_refs(self_), 'opi': len(w.ops),
+                         'deleted': [], 'uses_prune': False}
+                w.trace.append(entry)
+                w._cur_push_all = entry
+                try:
+                    return remote_op('push_all', {'prune': prune}, run)
+                finally:
+                    w._cur_push_all = None
             return push_all
 
         def w_cmd(orig):
             def cmd(self_, command, *args, **kw):
                 c = command % tuple(args) if args else command
+                cur = getattr(w, '_cur_push_all', None)
+                if cur is not None and re.match(r'^git push\b', c):
+                    cur['cmd'] = c
+                    cur['deleted'] = re.findall(r"':refs/heads/([^']+)'", c)
+                    cur['uses_prune'] = '--prune' in c
+                    return orig(self_, command, *args, **kw)
                 if re.match(r'^git push\b', c) and 'origin' in c and '--set-upstream' not in c \
                         and '--all' not in c:
                     w.trace.append({'op': 'rawpush', 'cmd': c})
